@@ -284,6 +284,33 @@ def apply_abstract(t, tr):
     return out
 
 
+def same_value(k, a, b, ts=()):
+    """Equality of one digest entry. Inter-stem parameters are floating-point functions of the coordinates: compared with a tolerance of 1e-3 (degrees /
+    Angstrom / probability), and not at all where the two sides chose another closest endpoint pair at (numerically) the same distance. The gap-aware
+    texts count missing residues by differences of residue numbers, which an insertion-code relabeling changes by design: not compared there."""
+    if k.endswith("Gaps") and any(t[0] == "relabel" and str(t[1]).startswith("icode") for t in ts):
+        return True
+    if k != "interStem":
+        return a == b
+    if len(a) != len(b):
+        return False
+    for x, y in zip(a, b):
+        if x[:2] != y[:2]:
+            return False
+        if x[2] != y[2]:
+            if x[4] is None or y[4] is None or abs(x[4] - y[4]) > 1e-3:
+                return False
+            continue
+        for u, v in zip(x[3:], y[3:]):
+            if (u is None) != (v is None):
+                return False
+            if u is not None:
+                d = abs(u - v)
+                if min(d, abs(360.0 - d)) > 1e-3:
+                    return False
+    return True
+
+
 def read_table(t, fmt):
     from rnapolis.parser import read_3d_structure
 
@@ -317,7 +344,16 @@ def digest(structure):
     def strands(text):
         return re.sub(r">strand_(\S+)", lambda m: ">strand_#%d" % chains.index(m.group(1)) if m.group(1) in chains else m.group(0), text)
 
+    # the same interactions mapped with gap detection (placeholders for missing residues between unconnected same-chain neighbours): connectivity is
+    # a distance test, so these texts are part of what must not depend on the presentation either
+    from rnapolis.tertiary import Mapping2D3D
+
+    mg = Mapping2D3D(structure, bi.basePairs, bi.stackings, True)
     return dict(
+        bpseqGaps=str(mg.bpseq), dotBracketGaps=strands(mg.dot_bracket), extendedGaps=strands(mg.extended_dot_bracket),
+        elements=[[str(e) for e in grp] for grp in (s2d.stems, s2d.singleStrands, s2d.hairpins, s2d.loops)],
+        interStem=[[p.stem1_idx, p.stem2_idx, p.type, p.torsion, p.min_endpoint_distance, p.torsion_angle_pdf, p.min_endpoint_distance_pdf, p.coaxial_probability]
+                   for p in (s2d.interStemParameters or [])],
         basePairs=[(rk(x.nt1), rk(x.nt2), x.lw.value, x.saenger.value if x.saenger else None) for x in bi.basePairs],
         stackings=[(rk(x.nt1), rk(x.nt2), x.topology.value if x.topology else None) for x in bi.stackings],
         baseRibose=sorted((rk(x.nt1), rk(x.nt2), x.br.value if x.br else None) for x in bi.baseRiboseInteractions),
@@ -369,7 +405,7 @@ def run_near(case):
         out.append(viol("near-threshold:rigid:" + r[1], "annotating the moved structure (%s) raised %s" % (tr, r[2])))
     else:
         for k in d0[1]:
-            if d0[1][k] != r[1][k]:
+            if not same_value(k, d0[1][k], r[1][k]):
                 out.append(viol("near-threshold:differs:rigid:%s" % k, "%s:%s changes %s of a structure with decision margin %.2e (%s): %s -> %s (placement %s)" % (tr[1], tr[2], k, margin, case["crossed"], d0[1][k], r[1][k], case["near"])))
                 break
     return dict(nontrivial=True, key=[case["near"], case["ts"]], outcome="near:%s %s" % (case["crossed"].split(":")[1], "same" if not out else "DIFF"), violations=out)
@@ -404,7 +440,7 @@ def run_altloc(case):
             ds[fmt] = r[1]
     if len(ds) == 2:
         for k in ds["PDB"]:
-            if ds["PDB"][k] != ds["mmCIF"][k]:
+            if not same_value(k, ds["PDB"][k], ds["mmCIF"][k]):
                 out.append(viol("altloc:differs:format:%s" % k, "the same atoms with alternate conformers (occupancies %s, moved conformer listed %s) give different %s as PDB and as mmCIF: %s vs %s"
                                 % (case["altloc"]["occ"], "first" if case["altloc"]["moved_first"] else "second", k, ds["PDB"][k], ds["mmCIF"][k])))
                 break
@@ -470,7 +506,7 @@ def run_case(case):
     else:
         d1 = r[1]
         for k in d0:
-            if d0[k] != d1[k]:
+            if not same_value(k, d0[k], d1[k], ts):
                 a, b = d0[k], d1[k]
                 if isinstance(a, list):
                     diff = [x for x in a if x not in b][:2], [x for x in b if x not in a][:2]
